@@ -25,10 +25,10 @@ TRUSTED = [
     "flattened composites (dispatch_data_get_flattened_bytes_4libxpc, not exported by libdispatch.so on Linux) are modelled and "
     "compared only in the statically linked variant of the harness",
 ]
-ASSUMPTIONS = ["malloc succeeds (DISPATCH_OUT_OF_MEMORY paths are not modelled)",
-               "the total size of a concatenation fits in size_t (hypothesis of the size/invariant theorems for concat; the "
-               "denotation theorem for concat does not need it)",
-               "clients hold a reference to every object they pass in (legal histories)"]
+ASSUMPTIONS = ["malloc succeeds (the only modelled DISPATCH_OUT_OF_MEMORY path is the concat whose total size does not fit in size_t)",
+               "ownership theorems: the client is well-behaved (Data.legal): it passes only objects it holds a reference to, releases "
+               "only references it holds, passes size_t arguments; new objects get never-used identities (new allocations)",
+               "disposal is synchronous and one count per object is modelled (the external count; the internal count stays 1)"]
 
 U64 = 1 << 64
 SMAX = U64 - 1
